@@ -46,6 +46,8 @@ func c09Oracle(cs vshCase, r *vshRun) []vshFinding { //nolint:gocognit,cyclop
 		pos := map[string]int{}      // mid -> index of first appearance in a description of this side's session
 		applied := map[string]bool{} // mids of descriptions applied to this side
 		existing := 0                // max number of sections of any earlier description of the session
+		ownOfferPending := false     // an offer of this side was applied and is not answered yet
+		pendingAppIndex := -1        // ... and the index of its application section (-1: none)
 		note := func(d vScanDesc) {
 			for i, s := range d.Sections {
 				if !s.HasMid || s.Mid == "" {
@@ -106,6 +108,12 @@ func c09Oracle(cs vshCase, r *vshRun) []vshFinding { //nolint:gocognit,cyclop
 					continue
 				}
 				typ := d.Type
+				// an offer generated while an offer of this side is still unanswered cannot be applied
+				// (have-local-offer -> have-local-offer is no edge); it is keyed apart
+				ctx := ""
+				if ownOfferPending {
+					ctx = "|in=have-local-offer"
+				}
 				for _, t := range order {
 					mid, has := first[t]
 					if !has {
@@ -124,7 +132,11 @@ func c09Oracle(cs vshCase, r *vshRun) []vshFinding { //nolint:gocognit,cyclop
 					if !had {
 						// first appearance of this transceiver's mid: appended after the existing sections
 						if at[0] < existing {
-							add(fmt.Sprintf("new-transceiver-not-appended|%s", typ), fmt.Sprintf("%s: the %s at step %d introduces mid %q at index %d, but earlier descriptions of the session already have %d sections (sections %s)", side, typ, d.Step, mid, at[0], existing, vshSecSummary(d.Scan)))
+							disp := ""
+							if ownOfferPending && at[0] == pendingAppIndex {
+								disp = "|displaces=application-section-of-the-pending-offer"
+							}
+							add(fmt.Sprintf("new-transceiver-not-appended|%s%s%s", typ, ctx, disp), fmt.Sprintf("%s: the %s at step %d introduces mid %q at index %d, but earlier descriptions of the session already have %d sections (sections %s)", side, typ, d.Step, mid, at[0], existing, vshSecSummary(d.Scan)))
 						}
 						want = at[0]
 					}
@@ -140,10 +152,19 @@ func c09Oracle(cs vshCase, r *vshRun) []vshFinding { //nolint:gocognit,cyclop
 						if d.Scan.Sections[i].Media == "application" {
 							other = "application"
 						}
-						add(fmt.Sprintf("transceiver-mid-%s|%s|section=%s", kind, typ, other), fmt.Sprintf("%s: mid %q of a transceiver first appeared at index %d; the %s at step %d carries it at index %v (sections %s)", side, mid, want, typ, d.Step, at, vshSecSummary(d.Scan)))
+						add(fmt.Sprintf("transceiver-mid-%s|%s|section=%s%s", kind, typ, other, ctx), fmt.Sprintf("%s: mid %q of a transceiver first appeared at index %d; the %s at step %d carries it at index %v (sections %s)", side, mid, want, typ, d.Step, at, vshSecSummary(d.Scan)))
 					}
 				}
 			case c.Call == "SetLocalDescription" && c.Side == side && c.Desc >= 0:
+				ownOfferPending = r.Descs[c.Desc].Type == "offer"
+				pendingAppIndex = -1
+				if ownOfferPending {
+					for i, sec := range r.Descs[c.Desc].Scan.Sections {
+						if sec.Media == "application" {
+							pendingAppIndex = i
+						}
+					}
+				}
 				// positions and the number of existing sections are fixed by applied descriptions only: an
 				// offer that was generated and abandoned binds nothing
 				note(r.Descs[c.Desc].Scan)
@@ -151,6 +172,7 @@ func c09Oracle(cs vshCase, r *vshRun) []vshFinding { //nolint:gocognit,cyclop
 					applied[m] = true
 				}
 			case c.Call == "SetRemoteDescription" && c.Side == side:
+				ownOfferPending = false
 				sc := vScanSDP(c.Text)
 				note(sc)
 				for _, m := range vshMidList(sc) {
@@ -201,6 +223,7 @@ func c09PairAlphabet(full bool) []vshOp {
 		{Side: "X", Op: "dc"},
 		{Side: "X", Op: "neg"},
 		{Side: "P", Op: "neg"},
+		{Side: "X", Op: "los"},
 		{Side: "P", Op: "addk", Kind: "audio", Dir: "sendrecv"},
 		{Side: "P", Op: "addk", Kind: "video", Dir: "recvonly"},
 		{Side: "P", Op: "dc"},
